@@ -59,8 +59,8 @@ func genC15(t *rapid.T) c15Case {
 	nseg := rapid.IntRange(1, 6).Draw(t, "nseg")
 	for i := 0; i < nseg; i++ {
 		s := c15Seg{
-			RTT: rapid.OneOf(rapid.Int64Range(1, 100), rapid.Int64Range(1, 10_000_000), rapid.SampledFrom([]int64{0, 1})).Draw(t, "rtt"),
-			Rel: rapid.SampledFrom([]string{"eq", "dbl", "half", ""}).Draw(t, "rel"),
+			RTT:  rapid.OneOf(rapid.Int64Range(1, 100), rapid.Int64Range(1, 10_000_000), rapid.SampledFrom([]int64{0, 1})).Draw(t, "rtt"),
+			Rel:  rapid.SampledFrom([]string{"eq", "dbl", "half", ""}).Draw(t, "rel"),
 			Drop: rapid.IntRange(0, 9).Draw(t, "drop") == 0,
 		}
 		if rapid.Bool().Draw(t, "long") {
